@@ -155,45 +155,69 @@ def wait_loop(prog, rep, tag):
 
 
 def is_state(prog, rep, tag):
+    """Idiom-independent form: (1) the comparison is between a decoded response's AlControl.state and the
+    desired_state argument; (2) from the point where that comparison came out unequal, every Ok(x)
+    that can still be reached has x == false (three-valued flow over bool locals: early return and
+    accumulated flag are both accepted, an overwritten flag is not); (3) an Ok(x) with x possibly true
+    is only built after the frame loop; (4) between one comparison and the next frame / the final
+    Ok(possibly true), control passes through the response iterator's next() again, and that iterator
+    is the frame's own into_pdu_iter() without adaptors."""
     P = "C10.is_state"
     b = prog.async_body("SubDeviceGroup::is_state")
     pr = Prov(b)
-    ok = False
     d = {}
-    for cd in q.conds(b):
-        both = None
-        if cd.kind == "call" and cd.call is not None and cd.call.is_("PartialEq::ne", "PartialEq::eq"):
-            both = (pr.of_operand(cd.call.args[0]), pr.of_operand(cd.call.args[1]))
-            is_ne = cd.call.is_("PartialEq::ne")
-            ne_t = cd.true_target() if is_ne else cd.false_target()
-        elif cd.kind == "cmp" and cd.op in ("Ne", "Eq"):
-            both = (pr.of_operand(cd.lhs), pr.of_operand(cd.rhs))
-            ne_t = cd.true_target() if cd.op == "Ne" else cd.false_target()
-        if both is None:
-            continue
-        l, r = both
-        sides = (has_root(l, "field", "AlControl", "state") and any(x[-1] == "desired_state" for x in r if x[0] in ("arg", "upvar"))) or (has_root(r, "field", "AlControl", "state") and any(x[-1] == "desired_state" for x in l if x[0] in ("arg", "upvar")))
-        if not sides:
-            continue
-        dom = q.edge_dominated(b, cd.bb, ne_t)
-        falses = [x for x in q.aggregates(b, "Result", "Ok") if q.const_int(x[2]["rv"]["a"][0]) == 0]
-        trues = [x for x in q.aggregates(b, "Result", "Ok") if q.const_int(x[2]["rv"]["a"][0]) == 1]
-        d["false-on-unequal"] = bool(falses) and all(x[0] in dom for x in falses)
-        d["true-not-on-unequal"] = bool(trues) and all(x[0] not in dom for x in trues)
-        # Ok(true) is outside the frame loop: not reachable back to alloc_frame
+
+    def is_desired(r):
+        return any(x[-1] == "desired_state" for x in r if x[0] in ("arg", "upvar"))
+
+    # comparison sites: (bb, stmt index after which the result is known, result local, value meaning "unequal")
+    sites = []
+    callmap = {c.bb: c for c in b.calls()}
+    for bi in sorted(b.live_blocks()):
+        t = b.term(bi)
+        if t["k"] == "call":
+            c = callmap.get(bi)
+            if c is not None and c.is_("PartialEq::ne", "PartialEq::eq") and t.get("dest") is not None and not t["dest"]["p"]:
+                l, r = pr.of_operand(c.args[0]), pr.of_operand(c.args[1])
+                if (has_root(l, "field", "AlControl", "state") and is_desired(r)) or (has_root(r, "field", "AlControl", "state") and is_desired(l)):
+                    sites.append((t["t"], 0, t["dest"]["l"], 1 if c.is_("PartialEq::ne") else 0, bi))
+        for si, st in enumerate(b.stmts(bi)):
+            if st["k"] == "assign" and st["rv"]["k"] == "bin" and st["rv"]["op"] in ("Eq", "Ne") and not st["place"]["p"]:
+                l, r = pr.of_operand(st["rv"]["a"][0]), pr.of_operand(st["rv"]["a"][1])
+                if (has_root(l, "field", "AlControl", "state") and is_desired(r)) or (has_root(r, "field", "AlControl", "state") and is_desired(l)):
+                    sites.append((bi, si + 1, st["place"]["l"], 1 if st["rv"]["op"] == "Ne" else 0, bi))
+    d["one-comparison"] = len(sites) == 1
+    oks = q.aggregates(b, "Result", "Ok")
+    if len(sites) == 1 and oks:
+        sb, ssi, res, uneq, cmp_bb = sites[0]
+        flow = q.BoolFlow(b, sb, ssi, {res: uneq})
+        after = {}
+        for (bi, si, st) in oks:
+            v = flow.value_at(bi, si, st["rv"]["a"][0])
+            after["%d" % bi] = v
+        d["false-after-unequal"] = all(v in (0, "unreachable") for v in after.values()) and any(v == 0 for v in after.values())
+        maybe_true = [x for x in oks if q.const_int(x[2]["rv"]["a"][0]) != 0]
         al = b.calls_to("PduLoop::alloc_frame")
-        d["true-after-loop"] = bool(al) and all(al[0].bb not in b.reachable_strict(x[0]) for x in trues)
-        # the state compared is decoded from the response iterator of this frame
+        d["true-only-after-loop"] = bool(al) and bool(maybe_true) and all(al[0].bb not in b.reachable_strict(x[0]) for x in maybe_true)
+        # the compared state is decoded from this frame's response iterator, without adaptors
         un = [c for c in b.calls() if c.is_("EtherCrabWireRead::unpack_from_slice") and "AlControl" in (c.res_s or "")]
-        d["decoded-from-response"] = len(un) == 1 and (has_root(pr.of_operand(un[0].args[0]), "call", "ReceivedFrame::into_pdu_iter") or any(x[0] == "call" and x[1].endswith("::next") for x in pr.of_operand(un[0].args[0])))
-        ok = all(d.values())
-    rep.ob(P, "compare-every-response" + tag, ok, "is_state returns Ok(false) as soon as a response's state differs from desired_state and Ok(true) only after all frames; %s" % d, loc=b.span)
+        it = [c for c in b.calls() if (c.decl_s or "").endswith("Iterator::next") and has_root(pr.of_operand(c.args[0]), "call", "ReceivedFrame::into_pdu_iter")]
+        d["decoded-from-response"] = len(un) == 1 and len(it) == 1 and any(x[0] == "call" and x[1].endswith("::next") for x in pr.of_operand(un[0].args[0]))
+        adapt = [c for c in b.calls() if (c.decl_s or "").split("::")[-2:-1] == ["Iterator"] and not (c.decl_s or "").endswith("Iterator::next") and has_root(pr.of_operand(c.args[0]), "call", "ReceivedFrame::into_pdu_iter")]
+        d["no-iterator-adaptor"] = not adapt
+        if len(it) == 1 and al:
+            # from the comparison, the next frame or a possibly-true Ok is only reached through next()
+            reach = b.reachable_from(sb, avoid={it[0].bb}) if sb != it[0].bb else set()
+            d["every-response-compared"] = al[0].bb not in reach and all(x[0] not in reach for x in maybe_true)
+        else:
+            d["every-response-compared"] = False
+    ok = bool(d) and all(d.values())
+    rep.ob(P, "compare-every-response" + tag, ok, "after a response whose state differs from desired_state every reachable Ok carries false; a possibly-true Ok is built only after the frame loop; every response of every frame is compared; %s" % d, loc=b.span)
     psc = b.calls_to("subdevice_group::push_state_checks")
     ok = len(psc) == 1 and has_root(pr.of_operand(psc[0].args[0]), "field", "GroupInner", "subdevices")
     rep.ob(P, "polls-own-members" + tag, ok, "the status datagrams are pushed for the group's own member list", loc=b.span, how="dataflow")
     # every response is propagated with `?` (a failed datagram is an error, not 'in state')
     rep.ob(P, "no-unwrap" + tag, not [c for c in b.calls() if c.is_("Result::unwrap", "Option::unwrap", "Result::unwrap_or", "Result::unwrap_or_default")], "no response error is swallowed", loc=b.span, how="inventory", nontrivial=False)
-
 
 def main_wait(prog, rep, tag):
     P = "C10.main_wait"
